@@ -853,6 +853,7 @@ class BackendZ3(Backend):
             # Load the existing Z3 solver for this thread
             s = self._tls.solver
             s.reset()
+            s.__dict__.pop("_claripy_tracked", None)
 
         # Configure timeouts
         if timeout is not None:
@@ -884,9 +885,13 @@ class BackendZ3(Backend):
     def add(self, s, c, track=False):
         converted = self.convert_list(c)
         if track:
+            # which constraint each tracked term stands for is remembered with the solver itself: the conversion cache
+            # forgets its oldest entries, and a term abstracted afresh is not the object that was added
+            tracked = s.__dict__.setdefault("_claripy_tracked", {})
             for a, nice_ast in zip(c, converted, strict=False):
                 ast = nice_ast.ast
                 h = self._z3_ast_hash(ast)
+                tracked[h] = a
                 if h not in self._ast_cache:
                     # the key is the address of the Z3 term: the entry must keep the term alive (the eviction callback
                     # releases this reference), or the address can be reused by a different term that would then be
@@ -894,6 +899,14 @@ class BackendZ3(Backend):
                     z3.Z3_inc_ref(self._context.ref(), ast)
                 self._ast_cache[h] = (a, ast)
         return self._add(s, converted, track=track)
+
+    def unsat_core(self, s):
+        tracked = getattr(s, "_claripy_tracked", {})
+        core = []
+        for term in self._unsat_core(s):
+            added = tracked.get(self._z3_ast_hash(term.ast))
+            core.append(added if added is not None else self._abstract(term))
+        return core
 
     def _unsat_core(self, s):
         cores = s.unsat_core()
